@@ -19,6 +19,9 @@ type (
 	ENum  struct{ Text string } // number literal as spelled ("12", "1.5")
 	EStr  struct{ S string }    // string literal without interpolation
 	EBool struct{ V bool }      //
+	// EStrExpr is a string literal that stays an expression when it is a part of an EInterp ("a#{'b'}c"),
+	// where a plain EStr part is literal text ("abc").
+	EStrExpr struct{ S string }
 	ENull struct{}              //
 	EName struct{ Name string } //
 	EUn   struct {
@@ -610,6 +613,8 @@ func (s *Speller) Expr(e Expr) {
 		s.Anchors = append(s.Anchors, Anchor{"string", e.S, s.B.Len()})
 		s.B.WriteString(q)
 		s.prev = q
+	case *EStrExpr:
+		s.Expr(&EStr{S: e.S})
 	case *EBool:
 		s.tok(strconv.FormatBool(e.V))
 	case *ENull:
@@ -621,7 +626,10 @@ func (s *Speller) Expr(e Expr) {
 		s.Expr(e.X)
 	case *EBin:
 		s.Expr(e.L)
-		s.tok(e.Op)
+		// the words of "not in", "starts with", ... are separated by white space like any two words
+		for _, w := range strings.Fields(e.Op) {
+			s.tok(w)
+		}
 		s.Expr(e.R)
 	case *ETern:
 		s.Expr(e.C)
@@ -631,10 +639,9 @@ func (s *Speller) Expr(e Expr) {
 		s.Expr(e.B)
 	case *ETest:
 		s.Expr(e.X)
+		s.tok("is")
 		if e.Not {
-			s.tok("is not")
-		} else {
-			s.tok("is")
+			s.tok("not")
 		}
 		for _, w := range strings.Fields(e.Test) {
 			s.tok(w)
